@@ -22,8 +22,9 @@ LEVEL_TEXT = ("Decides clauses C07-a..d: for each generic IntoHandler impl, with
               "when it has neither a filename nor content (C07-e, the multipart codec's empty-file and kind-mismatch decisions re-evaluated: what a typed body extrac"
               'tor hands the handler). C07-f: assume_one_param answers slot 0 and assume_two_params slots (0, 1) of the captured parameters by constant index (the k-'
               'th handler parameter is the k-th captured segment, also when the route captures more than the handler takes). The arity assertion of Router::finalize '
-              'runs for every handler of every route under no other condition, and every parse of an integer FromParam impl is a whole-parameter parse. Decides these'
-              ' clauses, not the exactness of every delivered value.')
+              'runs for every handler of every route under no other condition, and every parse of an integer FromParam impl is a whole-parameter parse. C07-g: the se'
+              "quence reader's clause C09-h re-evaluated for sequence fields of Query / URLEncoded. Decides these clauses, not the exactness of every delivered value"
+              '.')
 
 IH = "ohkami::fang::handler::into_handler::IntoHandler"
 
@@ -39,6 +40,7 @@ def run(ck, progs):
         ck.guard("C07-d MUSTPASS percent-decoding", lambda: c07d(ck, prog))
         ck.guard("C07-e DECISION multipart file presence", lambda: c07e(ck, prog))
         ck.guard("C07-f TABLE param accessors by position", lambda: c07f(ck, prog))
+        ck.guard("C07-g ORDER sequence fields", lambda: c07g(ck, prog))
     ck.config = None
 
 
@@ -448,3 +450,19 @@ def c07f(ck, prog):
         ok = idx == slots
         ck.ob(R, nm, ok, fs[0].loc(None), "" if ok else "%s answers slot(s) %s of the captured parameters, expected %s by constant index: a handler that takes fewer parameters than its route captures would receive the wrong segment" % (nm, idx, slots),
               how="%s -> list[%s]" % (nm, "], list[".join(slots)))
+
+
+def c07g(ck, prog):
+    """`the handler receives exactly the values the request carries` for sequence fields of Query<T> / URLEncoded<T>: a
+    trailing separator is an empty last element (or a refused number), not nothing -- the sequence reader's clause C09-h
+    re-evaluated for typed extraction."""
+    R = "C07-g ORDER sequence fields"
+    from . import C09
+    sub = type(ck)(ck.prop, ck.tier)
+    sub.config = ck.config
+    sub.guard("C09-h ORDER separator then element", lambda: C09.c09h(sub, prog))
+    n = 0
+    for o in sub.obs:
+        n += 1
+        ck.ob(R, "C09-h:" + o["key"], o["ok"], o["where"], o["detail"], how=o["how"], nontrivial=o.get("nontrivial", True))
+    ck.floor(R, "sequence reader clauses", n, 1)
